@@ -131,6 +131,13 @@ func (c *Client) handshake(ctx context.Context) error {
 
 		return errors.Wrap(err, "failed")
 	}
+	if ctxErr := ctx.Err(); ctxErr != nil {
+		// The handshake itself got through, but the watchdog may have seen
+		// the parent context first and closed the connection: do not hand
+		// out a client that looks alive on a closed connection.
+		_ = c.conn.Close()
+		return errors.Wrap(ctxErr, "parent context done")
+	}
 
 	return nil
 }
